@@ -163,10 +163,11 @@ func (m *mon) cancelledBeforeStart(s *sub) bool {
 
 // C01 — every accepted job runs exactly once; rejected / cancelled jobs never run
 func (m *mon) c01() {
-	if !m.props["C01"] {
+	if !m.props["C01"] && !m.props["C07"] {
 		return
 	}
 	running := m.finalWorkerStatus() == 1
+	genSeen := map[string]bool{}
 	for _, s := range m.e.subs {
 		if len(s.tEnter) > 1 {
 			m.add("C01", "twice", "job d%d was invoked %d times", s.data, len(s.tEnter))
@@ -183,6 +184,17 @@ func (m *mon) c01() {
 		for i := range s.seenID {
 			if s.seenData[i] != s.data || (s.id != "" && s.seenID[i] != s.id) || (s.id == "" && !m.e.useGen && s.seenID[i] != "") {
 				m.add("C01", "identity", "job d%d (id %q) reached the worker function as d%d id %q", s.data, s.id, s.seenData[i], s.seenID[i])
+				m.add("C07", "wrong-job", "job d%d (id %q) reached the worker function as d%d id %q", s.data, s.id, s.seenData[i], s.seenID[i])
+			}
+			if s.id == "" && m.e.useGen {
+				// no id chosen by the caller: the worker's generator names the job ("genN", every call a new N)
+				id := strings.TrimPrefix(s.seenID[i], "g:")
+				n, err := strconv.Atoi(strings.TrimPrefix(id, "gen"))
+				if !strings.HasPrefix(id, "gen") || err != nil || n < 1 || n > m.e.idGen || genSeen[id] {
+					m.add("C01", "identity", "job d%d submitted without an id on a worker with an id generator reached the worker function with id %q (generator issued gen1..gen%d, each once)", s.data, s.seenID[i], m.e.idGen)
+					m.add("C07", "wrong-job", "job d%d submitted without an id on a worker with an id generator reached the worker function with id %q (generator issued gen1..gen%d, each once)", s.data, s.seenID[i], m.e.idGen)
+				}
+				genSeen[id] = true
 			}
 		}
 		if m.clean() && running && s.accepted && !m.cancelledBeforeStart(s) && !m.e.noFinalDrain {
